@@ -1365,6 +1365,7 @@ type argsOnceClient struct {
 	g    *grammar
 	fn   string
 	node *types.Interface
+	reaches map[*types.Func]bool // functions from which the recursive expression writer can be reached
 }
 
 func (c *argsOnceClient) LoopHead(e *Engine, st *State, loop ast.Stmt) *State {
@@ -1405,8 +1406,8 @@ func (c *argsOnceClient) LoopHead(e *Engine, st *State, loop ast.Stmt) *State {
 }
 
 func (c *argsOnceClient) PreCall(e *Engine, st *State, call *ast.CallExpr, callee *types.Func) *State {
-	if callee == nil || !c.g.emitFns[callee] {
-		return nil
+	if callee == nil || !c.g.emitFns[callee] || !c.reaches[callee] {
+		return nil // only writers that can recurse into the expression writer multiply the work
 	}
 	out := st
 	for _, a := range call.Args {
@@ -1459,13 +1460,49 @@ func ruleC12ArgsOnce(p *Program, r *Run) {
 	g := p.Grammar()
 	pkg := p.PQL
 	node := p.Iface(p.Parser, "Node")
+	// the functions that can (transitively) call the recursive expression writer
+	we := FuncObj(pkg, p.MustFunc(pkg, "writeExpression"))
+	calls := map[*types.Func][]*types.Func{}
+	for _, fd := range AllFuncs(pkg) {
+		from := FuncObj(pkg, fd)
+		ast.Inspect(fd.Body, func(n ast.Node) bool {
+			switch v := n.(type) {
+			case *ast.CallExpr:
+				if f := Callee(p.Info, v); f != nil {
+					calls[from] = append(calls[from], f)
+				}
+			case *ast.Ident:
+				// a function value stored in a table (the built-in rewrites) may be called from the dispatcher
+				if f, ok := p.Info.Uses[v].(*types.Func); ok && f.Pkg() == pkg.Types {
+					calls[from] = append(calls[from], f)
+				}
+			}
+			return true
+		})
+	}
+	reaches := map[*types.Func]bool{we: true}
+	for changed := true; changed; {
+		changed = false
+		for from, tos := range calls {
+			if reaches[from] {
+				continue
+			}
+			for _, t := range tos {
+				if reaches[t] {
+					reaches[from] = true
+					changed = true
+					break
+				}
+			}
+		}
+	}
 	for _, fd := range AllFuncs(pkg) {
 		fobj := FuncObj(pkg, fd)
 		if !g.emitFns[fobj] {
 			continue
 		}
 		fn := FuncName(pkg, fd)
-		c := &argsOnceClient{p: p, g: g, fn: fn, node: node}
+		c := &argsOnceClient{p: p, g: g, fn: fn, node: node, reaches: reaches}
 		e := NewEngine(p, pkg, fd, c)
 		e.Run(nil)
 		for _, m := range e.Errs {
